@@ -820,16 +820,15 @@ pub fn gen(ops: &mut Vec<String>, seed: u64, thorough: bool) {
     let t = |mid: bool, d: &str| Sym::Turn(mid, d.to_string());
     // --- exhaustive, small alphabet (losses, power cycle, user call, device fault) ---
     let a6 = vec![t(false, "ok"), t(false, "lossreq"), t(false, "lossrep"), Sym::Power, Sym::DiagReq, Sym::Fault(vec![0x42, 0x01])];
-    let (d6, d12) = if thorough { (6, 4) } else { (4, 3) };
-    for (retry, ilen) in [(1u64, 1usize), (1, 0)] {
+    // depth per (retry, input length, warm-up): the deepest enumeration starts from data exchange
+    let plan: &[(u64, usize, u64, usize)] = if thorough {
+        &[(1, 1, 14, 6), (1, 0, 14, 5), (1, 1, 0, 5), (1, 0, 0, 4), (2, 1, 16, 4)]
+    } else {
+        &[(1, 1, 14, 4), (1, 0, 14, 4), (1, 1, 0, 4), (2, 1, 16, 3)]
+    };
+    for &(retry, ilen, warm, depth) in plan {
         let c = small_cfg(retry, ilen);
-        // from a fresh master and from established data exchange
-        for warm in [0u64, 14] {
-            if !thorough && ilen == 0 && warm == 0 {
-                continue;
-            }
-            enumerate(&a6, d6, &mut |h| run_case(ops, &c, warm, h, 3000));
-        }
+        enumerate(&a6, depth, &mut |h| run_case(ops, &c, warm, h, 3000));
     }
     // --- exhaustive, wider alphabet: mid-request user calls and substituted replies ---
     {
@@ -847,8 +846,9 @@ pub fn gen(ops: &mut Vec<String>, seed: u64, thorough: bool) {
         for i in [0usize, 1, 6, 7, 8, 11] {
             a12.push(t(false, &subs[i]));
         }
-        for warm in [0u64, 14] {
-            enumerate(&a12, d12, &mut |h| run_case(ops, &c, warm, h, 7000));
+        let plan12: &[(u64, usize)] = if thorough { &[(14, 4), (0, 3)] } else { &[(14, 3), (0, 3)] };
+        for &(warm, depth) in plan12 {
+            enumerate(&a12, depth, &mut |h| run_case(ops, &c, warm, h, 7000));
         }
     }
     // --- sampled long histories ---
